@@ -55,6 +55,8 @@ type CORSCase struct {
 	Spec   CORSSpec        `json:"spec"`
 	Table  model.TableSpec `json:"table"`
 	Reqs   []CORSReq       `json:"reqs"`
+	// Trace: 0 tracing off, 1 tracing on, 2 tracing was on and then TraceLogger(nil) was called
+	Trace int `json:"trace,omitempty"`
 }
 
 var originPool = []string{"http://a.com", "https://a.com", "http://b.org", "http://sub.a.com", "http://a.com:8080", "https://example.com", "http://localhost:3000"}
@@ -212,6 +214,7 @@ func genCORSCase(t *rapid.T, preflightHeavy bool) CORSCase {
 	cfg.Conds, cfg.OddMethods = false, false
 	cfg.MaxServices, cfg.MaxRoutes = 2, 6
 	c.Table = gen.Table(t, cfg)
+	c.Trace = rapid.SampledFrom([]int{0, 0, 0, 1, 2}).Draw(t, "trace")
 	n := rapid.IntRange(1, 10).Draw(t, "nreqs")
 	for i := 0; i < n; i++ {
 		var r CORSReq
@@ -343,8 +346,15 @@ func checkCORS(c CORSCase, property string) (vs []*Violation) {
 	}
 
 	nontrivial := false
-	labels := []string{"router_" + c.Router}
+	labels := []string{"router_" + c.Router, "trace_" + strconv.Itoa(c.Trace)}
 	urls := map[string]string{}
+	switch c.Trace {
+	case 1:
+		harness.SetTrace(true)
+	case 2:
+		harness.SetTrace(true)
+		harness.SetTraceOff(true)
+	}
 	for i, r := range c.Reqs {
 		id := strconv.Itoa(i)
 		q := r.spec()
